@@ -420,6 +420,28 @@ def f5_points(ctx, repo):
     ctx.ob("F5-points", w.where, "word run emits " + ", ".join(wwords), okw, "" if okw else "word encoding is not big-endian (delta>>8, delta&0xFF)")
 
 
+def _array_typecodes(repo, mod, f):
+    """typecodes of the arrays a function builds: array.array("h", ...) directly, or through a module helper that
+    receives the typecode as a parameter (extract-function refactoring)"""
+    out = {try_fold(c.args[0]) for c in calls_in(f.node) if call_name(c) == "array.array" and c.args}
+    for c in calls_in(f.node):
+        nm = call_name(c)
+        h = mod.funcs.get(nm) if nm else None
+        if h is None or h.node is f.node:
+            continue
+        params = [a.arg for a in h.node.args.args]
+        for ac in calls_in(h.node):
+            if call_name(ac) == "array.array" and ac.args and isinstance(ac.args[0], ast.Name) and ac.args[0].id in params:
+                k = params.index(ac.args[0].id)
+                if k < len(c.args):
+                    out.add(try_fold(c.args[k]))
+                for kw in c.keywords:
+                    if kw.arg == ac.args[0].id:
+                        out.add(try_fold(kw.value))
+    out.discard(None)
+    return out
+
+
 def f5_deltas(ctx, repo):
     ctx.rule("F5-deltas", "packed deltas: per size class the header flag, chunk size (count mask + 1), array typecode and value guard agree between encodeDeltaRunAs* and decompileDeltas_", floor=16)
     mod = repo.mod("ttLib/tables/TupleVariation.py")
@@ -474,7 +496,7 @@ def f5_deltas(ctx, repo):
         want_part = f"{flag} | runLength - 1" if flag else "runLength - 1"
         okh = heads == sorted([want_full, want_part])
         ctx.ob("F5-deltas", f.where, "headers: " + " ; ".join(heads), okh, "" if okh else f"expected [{want_full}] and [{want_part}]")
-        tcs = sorted({try_fold(c.args[0]) for c in calls_in(f.node) if call_name(c) == "array.array"})
+        tcs = sorted(_array_typecodes(repo, mod, f))
         okt = tcs == ([tc] if tc else [])
         ctx.ob("F5-deltas", f.where, f"array typecode {tcs}", okt, "" if okt else f"expected {tc} (reader uses {want_r.get(flag or 'BYTES')})")
         offs = [try_fold(n.value, cenv) for n in ast.walk(f.node) if isinstance(n, ast.AugAssign) and norm(n.target) == "offset"]
@@ -1289,7 +1311,7 @@ def tag_ident(ctx, repo):
     want = [("[a-z0-9]", "'_' + c"), ("[A-Z]", "c + '_'"), (None, "hex(byteord(c))[2:]")]
     ctx.ob("TAGID", esc.where, f"escape classes {classes}", classes == want, "" if classes == want else f"expected {want}")
     itt = mod.func("identifierToTag")
-    tests = [norm(n.test) for n in ast.walk(itt.node) if isinstance(n, ast.If)]
+    tests = [norm(n.test) for n in ast.walk(itt.node) if isinstance(n, (ast.If, ast.IfExp))]
     ok = "ident[i] == '_'" in tests and "ident[i + 1] == '_'" in tests
     ctx.ob("TAGID", itt.where, f"decoder class tests {tests}", ok, "" if ok else "decoder no longer distinguishes '_c' / 'C_' / hex pairs")
     steps = [norm(c) for c in calls_in(itt.node) if call_name(c) == "range"]
